@@ -309,15 +309,177 @@ Proof.
   destruct (sp_brq u ne (c :: l')) as [[|] r'| |] eqn:E; try discriminate. intros [= <-]. exact (sp_brq_false _ _ _ _ E).
 Qed.
 
-Lemma Alternative_cons u t a r : Term u t (a ++ r) -> Alternative u a r -> Alternative u (t ++ a) r.
+Lemma Alternative_cons u np t a r k1 k2 : Term u np t (a ++ r) k1 -> Alternative u np a r k2 ->
+  Alternative u np (t ++ a) r (k1 + k2).
 Proof.
-  intros Ht Ha. revert t Ht. induction Ha as [r|a t' r Ha IH Ht']; intros t Ht.
-  - rewrite app_nil_r. change t with ([] ++ t). apply A_term; [apply A_empty|exact Ht].
-  - rewrite app_assoc. apply A_term; [|exact Ht']. apply IH. rewrite <- app_assoc in Ht. exact Ht.
+  intros Ht Ha. revert t k1 Ht. induction Ha as [r|a t' r ka kt Ha IH Ht']; intros t k1 Ht.
+  - rewrite app_nil_r in *. rewrite N.add_0_r. change t with ([] ++ t). replace k1 with (0 + k1) by apply N.add_0_l.
+    apply A_term; [apply A_empty|exact Ht].
+  - rewrite app_assoc. rewrite N.add_assoc. apply A_term; [|exact Ht']. apply IH. rewrite <- app_assoc in Ht. exact Ht.
+Qed.
+
+(* ---- decimal escapes and legacy octal escapes ---- *)
+Lemma non_zero_digit_digit c : non_zero_digit c = true -> decimal_digit c = true.
+Proof.
+  unfold non_zero_digit, decimal_digit. intros H. apply andb_true_iff in H. destruct H as [H1 H2]. rewrite H2, andb_true_r.
+  apply N.leb_le in H1. apply N.leb_le. lia.
+Qed.
+Lemma span_digits_cons c r : decimal_digit c = true -> span_digits (c :: r) = (c :: fst (span_digits r), snd (span_digits r)).
+Proof. intros H. cbn [span_digits]. rewrite H. destruct (span_digits r); reflexivity. Qed.
+Lemma no_digit_follows_nodigit r : no_digit_follows r <-> nodigit r.
+Proof. destruct r; split; trivial. Qed.
+(* a DecimalEscape at l is the maximal run of digits *)
+Lemma DecimalEscape_run ds v r : DecimalEscape ds v r -> span_digits (ds ++ r) = (ds, r) /\ dec_value ds = v /\
+  exists d ds', ds = d :: ds' /\ non_zero_digit d = true.
+Proof.
+  intros [d ds' v0 r0 Hd HD Hn]. apply DecimalDigits_spec in HD. destruct HD as [_ [Hf Hv]].
+  split; [apply span_digits_app; [exact Hf|apply no_digit_follows_nodigit; exact Hn]|]. split; [exact Hv|].
+  exists d, ds'. split; [reflexivity|exact Hd].
+Qed.
+Lemma sp_backref_complete u np ds v r : DecimalEscape ds v r -> v <= np -> sp_backref u np (ds ++ r) = SOk true r.
+Proof.
+  intros HD Hv. destruct (DecimalEscape_run ds v r HD) as [Hs [Hval [d [ds' [-> Hd]]]]].
+  cbn [app sp_backref]. rewrite Hd. cbn [app] in Hs. rewrite (span_digits_cons d _ (non_zero_digit_digit d Hd)) in Hs.
+  injection Hs as Hs1 Hs2. rewrite Hs1, Hs2, Hval. apply N.leb_le in Hv. rewrite Hv. reflexivity.
+Qed.
+Lemma sp_backref_sound u np l b r : sp_backref u np l = SOk b r ->
+  (b = true /\ exists ds v, l = ds ++ r /\ DecimalEscape ds v r /\ v <= np) \/
+  (b = false /\ r = l /\ ~ decimal_escape_matches np l).
+Proof.
+  destruct l as [|c l']; cbn [sp_backref].
+  { intros [= <- <-]. right. repeat split. intros [ds [v [r0 [HD [_ E]]]]].
+    destruct (DecimalEscape_run ds v r0 HD) as [_ [_ [d [ds' [-> _]]]]]. discriminate E. }
+  destruct (non_zero_digit c) eqn:Ec.
+  2:{ intros [= <- <-]. right. repeat split. intros [ds [v [r0 [HD [_ E]]]]].
+      destruct (DecimalEscape_run ds v r0 HD) as [_ [_ [d [ds' [-> Hd]]]]]. injection E as -> _. congruence. }
+  pose proof (non_zero_digit_digit c Ec) as Hdig.
+  destruct (span_digits_spec l') as [E1 [F1 N1]].
+  assert (HD : DecimalEscape (c :: fst (span_digits l')) (dec_value (c :: fst (span_digits l'))) (snd (span_digits l'))).
+  { apply DE_digits; [exact Ec| |apply no_digit_follows_nodigit; exact N1].
+    apply DecimalDigits_intro; [discriminate|constructor; assumption]. }
+  destruct (dec_value (c :: fst (span_digits l')) <=? np) eqn:Ev.
+  - intros [= <- <-]. left. split; [reflexivity|]. exists (c :: fst (span_digits l')), (dec_value (c :: fst (span_digits l'))).
+    split; [cbn [app]; rewrite <- E1; reflexivity|]. split; [exact HD|apply N.leb_le; exact Ev].
+  - destruct u; [discriminate|]. intros [= <- <-]. right. repeat split. intros [ds [v [r0 [HD' [Hv E]]]]].
+    destruct (DecimalEscape_run ds v r0 HD') as [Hs [Hval _]]. rewrite <- E in Hs.
+    rewrite (span_digits_cons c l' Hdig) in Hs. injection Hs as Hs1 Hs2. rewrite Hs1, Hval in Ev.
+    apply N.leb_gt in Ev. lia.
+Qed.
+Lemma sp_backref_skip u np l : (u = false \/ match l with c :: _ => non_zero_digit c = false | [] => True end) ->
+  ~ decimal_escape_matches np l -> sp_backref u np l = SOk false l.
+Proof.
+  intros Hu Hn. destruct (sp_backref u np l) as [[|] r| |] eqn:E.
+  - apply sp_backref_sound in E. destruct E as [[_ [ds [v [-> [HD Hv]]]]]|[E _]]; [|discriminate].
+    exfalso. apply Hn. exists ds, v, r. repeat split; assumption.
+  - apply sp_backref_sound in E. destruct E as [[E _]|[_ [-> _]]]; [discriminate|reflexivity].
+  - exfalso. destruct l as [|c l']; [discriminate E|]. cbn [sp_backref] in E. destruct Hu as [->|Hc].
+    + destruct (non_zero_digit c); [destruct (_ <=? np)|]; discriminate E.
+    + rewrite Hc in E. discriminate E.
+  - destruct l as [|c l']; [discriminate E|]. cbn [sp_backref] in E.
+    destruct (non_zero_digit c); [destruct (_ <=? np); [|destruct u]|]; discriminate E.
+Qed.
+Lemma not_decimal_escape np c r : non_zero_digit c = false -> ~ decimal_escape_matches np (c :: r).
+Proof.
+  intros Hc [ds [v [r0 [HD [_ E]]]]]. destruct (DecimalEscape_run ds v r0 HD) as [_ [_ [d [ds' [-> Hd]]]]].
+  injection E as -> _. congruence.
+Qed.
+
+Lemma octal_is_digit c : octal_digit c = true -> decimal_digit c = true.
+Proof.
+  unfold octal_digit, decimal_digit. intros H. apply andb_true_iff in H. destruct H as [H1 H2]. rewrite H1.
+  apply N.leb_le in H2. apply N.leb_le. lia.
+Qed.
+Lemma octal_split c : octal_digit c = true -> zero_to_three c = false -> four_to_seven c = true.
+Proof.
+  unfold octal_digit, zero_to_three, four_to_seven. intros H1 H2. apply andb_true_iff in H1. destruct H1 as [H1 H3].
+  rewrite H1 in H2. cbn [andb] in H2. rewrite H3, andb_true_r. apply N.leb_gt in H2. apply N.leb_le. lia.
+Qed.
+Lemma zero_to_three_octal c : zero_to_three c = true -> octal_digit c = true.
+Proof.
+  unfold octal_digit, zero_to_three. intros H. apply andb_true_iff in H. destruct H as [H1 H2]. rewrite H1.
+  apply N.leb_le in H2. apply N.leb_le. lia.
+Qed.
+Lemma four_to_seven_octal c : four_to_seven c = true -> octal_digit c = true /\ zero_to_three c = false /\ c <> 48.
+Proof.
+  unfold octal_digit, zero_to_three, four_to_seven. intros H. apply andb_true_iff in H. destruct H as [H1 H2].
+  apply N.leb_le in H1. rewrite H2. repeat split.
+  - rewrite andb_true_r. apply N.leb_le. lia.
+  - apply andb_false_iff. right. apply N.leb_gt. lia.
+  - lia.
+Qed.
+Lemma digit_not_octal d : decimal_digit d = true -> octal_digit d = false -> d = 56 \/ d = 57.
+Proof.
+  unfold decimal_digit, octal_digit. intros H1 H2. apply andb_true_iff in H1. destruct H1 as [H1 H3]. rewrite H1 in H2.
+  cbn [andb] in H2. apply N.leb_le in H1, H3. apply N.leb_gt in H2. lia.
+Qed.
+Definition nooctal (r : list N) : bool := match r with c :: _ => negb (octal_digit c) | [] => true end.
+Lemma nooctal_follows r : nooctal r = true <-> no_octal_follows r.
+Proof. destruct r as [|c r]; cbn; [tauto|]. rewrite negb_true_iff. tauto. Qed.
+Lemma sp_legacy_octal_sound a r1 r : sp_legacy_octal (a :: r1) = (true, r) -> ((a =? 48) && negb (starts_digit r1))%bool = false ->
+  exists w, a :: r1 = w ++ r /\ LegacyOctalEscapeSequence w r.
+Proof.
+  cbn [sp_legacy_octal]. destruct (octal_digit a) eqn:Ea; [|discriminate]. intros H Hz.
+  assert (Hone : forall rest, nooctal rest = true -> (a = 48 -> starts_digit rest = true) ->
+                 exists w, a :: rest = w ++ rest /\ LegacyOctalEscapeSequence w rest).
+  { intros rest Hno Hz'. exists [a]. split; [reflexivity|]. destruct (N.eq_dec a 48) as [->|Hne].
+    - destruct rest as [|d rest']; [discriminate (Hz' eq_refl)|]. cbn [starts_digit nooctal] in *.
+      apply negb_true_iff in Hno. apply LO_zero. exact (digit_not_octal d (Hz' eq_refl) Hno).
+    - apply LO_one; [exact Ea|exact Hne|apply nooctal_follows; exact Hno]. }
+  assert (Hz' : a = 48 -> starts_digit r1 = true).
+  { intros ->. cbn [N.eqb Pos.eqb andb] in Hz. apply negb_false_iff in Hz. exact Hz. }
+  destruct r1 as [|b r2]; [injection H as <-; apply Hone; [reflexivity|exact Hz']|].
+  destruct (octal_digit b) eqn:Eb.
+  2:{ injection H as <-. apply Hone; [cbn [nooctal]; rewrite Eb; reflexivity|exact Hz']. }
+  destruct (zero_to_three a) eqn:E03.
+  - destruct r2 as [|c r3].
+    + injection H as <-. exists [a; b]. split; [reflexivity|apply LO_two_low; [exact E03|exact Eb|exact I]].
+    + destruct (octal_digit c) eqn:Ec; injection H as <-.
+      * exists [a; b; c]. split; [reflexivity|apply LO_three; assumption].
+      * exists [a; b]. split; [reflexivity|apply LO_two_low; [exact E03|exact Eb|exact Ec]].
+  - injection H as <-. exists [a; b]. split; [reflexivity|apply LO_two_high; [apply octal_split; assumption|exact Eb]].
+Qed.
+Lemma sp_legacy_octal_complete w r : LegacyOctalEscapeSequence w r -> sp_legacy_octal (w ++ r) = (true, r).
+Proof.
+  intros [d r0 Hd|a r0 Ha Hne Hno|a b r0 Ha Hb Hno|a b r0 Ha Hb|a b c r0 Ha Hb Hc]; cbn [app sp_legacy_octal].
+  - cbn [octal_digit N.leb N.compare Pos.compare Pos.compare_cont andb]. destruct Hd as [-> | ->]; reflexivity.
+  - rewrite Ha. destruct r0 as [|b r1]; [reflexivity|]. cbn in Hno. rewrite Hno. reflexivity.
+  - rewrite (zero_to_three_octal a Ha), Hb, Ha. destruct r0 as [|c r1]; [reflexivity|]. cbn in Hno. rewrite Hno. reflexivity.
+  - destruct (four_to_seven_octal a Ha) as [Ho [H03 _]]. rewrite Ho, Hb, H03. reflexivity.
+  - rewrite (zero_to_three_octal a Ha), Hb, Ha, Hc. reflexivity.
+Qed.
+Lemma sp_legacy_octal_false l r : sp_legacy_octal l = (false, r) ->
+  r = l /\ match l with c :: _ => octal_digit c = false | [] => True end.
+Proof.
+  destruct l as [|a r1]; cbn [sp_legacy_octal]; [intros [= <-]; split; trivial|].
+  destruct (octal_digit a) eqn:Ea; [|intros [= <-]; split; trivial].
+  destruct r1 as [|b r2]; [discriminate|]. destruct (octal_digit b); [|discriminate].
+  destruct (zero_to_three a); [|discriminate]. destruct r2 as [|c r3]; [discriminate|]. destruct (octal_digit c); discriminate.
+Qed.
+Lemma LegacyOctal_head w r : LegacyOctalEscapeSequence w r -> exists a w', w = a :: w' /\ octal_digit a = true /\
+  ((a =? 48) && negb (starts_digit (w' ++ r)))%bool = false.
+Proof.
+  intros [d r0 Hd|a r0 Ha Hne Hno|a b r0 Ha Hb Hno|a b r0 Ha Hb|a b c r0 Ha Hb Hc].
+  - exists 48, []. repeat split. cbn [app starts_digit N.eqb Pos.eqb andb]. destruct Hd as [-> | ->]; reflexivity.
+  - exists a, []. split; [reflexivity|]. split; [exact Ha|]. apply N.eqb_neq in Hne. rewrite Hne. reflexivity.
+  - exists a, [b]. split; [reflexivity|]. split; [apply zero_to_three_octal; exact Ha|]. cbn [app starts_digit].
+    rewrite (octal_is_digit b Hb). apply andb_false_r.
+  - exists a, [b]. split; [reflexivity|]. destruct (four_to_seven_octal a Ha) as [Ho [_ Hne]]. split; [exact Ho|].
+    apply N.eqb_neq in Hne. rewrite Hne. reflexivity.
+  - exists a, [b; c]. split; [reflexivity|]. split; [apply zero_to_three_octal; exact Ha|]. cbn [app starts_digit].
+    rewrite (octal_is_digit b Hb). apply andb_false_r.
+Qed.
+Lemma octal_not_special a : octal_digit a = true ->
+  character_class_escape a = false /\ control_escape a = false /\ (a =? 99) = false /\ (a =? 120) = false /\ (a =? 117) = false /\
+  assertion_escape a = false.
+Proof.
+  unfold octal_digit. intros H. apply andb_true_iff in H. destruct H as [H1 H2]. apply N.leb_le in H1, H2.
+  unfold character_class_escape, control_escape, assertion_escape. cbn [existsb].
+  repeat split; repeat (apply orb_false_iff; split); try reflexivity; apply N.eqb_neq; lia.
 Qed.
 
 Section EscapeSound.
 Variable u : bool.
+Variable np : N.
 Lemma sp_hex_esc_sound l b r : sp_hex_esc u l = SOk b r ->
   (b = true /\ exists h1 h2, l = 120 :: h1 :: h2 :: r /\ hex_digit h1 = true /\ hex_digit h2 = true) \/
   (b = false /\ r = l /\ forall h1 h2 r', hex_digit h1 = true -> hex_digit h2 = true -> l <> 120 :: h1 :: h2 :: r').
@@ -367,11 +529,19 @@ Proof.
   cbn [identity_escape]. unfold syntax_character. cbn [existsb]. intros H.
   repeat (apply orb_true_iff in H; destruct H as [H|H]); try discriminate H; apply N.eqb_eq in H; subst c; repeat split.
 Qed.
-Lemma sp_atom_escape_sound l b r : sp_atom_escape u l = SOk b r ->
-  (b = true /\ exists w, l = w ++ r /\ AtomEscape u w r /\ (forall x w', w = x :: w' -> w' <> [] -> assertion_escape x = false)) \/
+Lemma sp_atom_escape_sound l b r : sp_atom_escape u np l = SOk b r ->
+  (b = true /\ exists w, l = w ++ r /\ AtomEscape u np w r /\ (forall x w', w = x :: w' -> w' <> [] -> assertion_escape x = false)) \/
   (b = false /\ r = l).
 Proof.
-  destruct l as [|c l']; cbn [sp_atom_escape]; [destruct u; [discriminate|]; intros [= <- <-]; right; split; reflexivity|].
+  unfold sp_atom_escape. destruct (sp_backref u np l) as [[|] r0| |] eqn:Eb; try discriminate.
+  { intros [= <- <-]. left. split; [reflexivity|]. apply sp_backref_sound in Eb.
+    destruct Eb as [[_ [ds [v [-> [HD Hv]]]]]|[Eb _]]; [|discriminate]. exists ds. split; [reflexivity|].
+    split; [apply (AE_decimal u np ds v r0 HD Hv)|].
+    destruct (DecimalEscape_run ds v r0 HD) as [_ [_ [d [ds' [-> Hd]]]]]. intros x w' [= <- <-] _.
+    unfold non_zero_digit in Hd. apply andb_true_iff in Hd. destruct Hd as [_ Hd]. apply N.leb_le in Hd.
+    unfold assertion_escape. apply orb_false_iff. split; apply N.eqb_neq; lia. }
+  apply sp_backref_sound in Eb. destruct Eb as [[Eb _]|[_ [_ Hnodec]]]; [discriminate|].
+  destruct l as [|c l']; [destruct u; [discriminate|]; intros [= <- <-]; right; split; reflexivity|].
   assert (Hone : forall x w', [c] = x :: w' -> w' <> [] -> assertion_escape x = false) by (intros x w' [= <- <-] H; contradiction).
   destruct (character_class_escape c) eqn:Ecl.
   { intros [= <- <-]. left. split; [reflexivity|]. exists [c]. split; [reflexivity|]. split; [apply AE_class; exact Ecl|exact Hone]. }
@@ -399,22 +569,29 @@ Proof.
     exists (117 :: w). split; [reflexivity|]. split; [apply AE_character, CE_unicode; exact HU|].
     intros x w' [= <- <-] _. reflexivity. }
   apply sp_unicode_esc_sound in Eu. destruct Eu as [[Eu _]|[_ [_ Hnouni]]]; [discriminate|].
-  destruct (identity_escape u c && negb (c =? 48))%bool eqn:Ei.
+  destruct (if u then (false, c :: l') else sp_legacy_octal (c :: l')) as [bo ro] eqn:Eo. destruct bo.
+  { destruct u eqn:Eu'; [discriminate Eo|]. intros [= <- <-]. left. split; [reflexivity|].
+    destruct (sp_legacy_octal_sound c l' ro Eo Ez) as [w [E HL]]. exists w. split; [exact E|]. split.
+    - apply AE_character, CE_legacy_octal; [reflexivity|exact HL|rewrite <- E; exact Hnodec].
+    - destruct (LegacyOctal_head w ro HL) as [a [w' [-> [Ha _]]]]. intros x w'' [= <- <-] _.
+      apply (octal_not_special a Ha). }
+  destruct (identity_escape u c) eqn:Ei.
   2:{ destruct u; [discriminate|]. intros [= <- <-]. right. split; reflexivity. }
-  apply andb_true_iff in Ei. destruct Ei as [Ei E48]. apply negb_true_iff in E48. apply N.eqb_neq in E48.
   intros [= <- <-]. left. split; [reflexivity|]. exists [c]. split; [reflexivity|]. split; [|exact Hone].
-  apply AE_character, CE_identity; [exact Ei|]. intros _ [H|[[-> [h1 [h2 [r' [H1 [H2 ->]]]]]]|[-> [hs [v [r' [Hh ->]]]]]]].
-  - contradiction.
+  apply AE_character, CE_identity; [exact Ei|]. intros Hu. rewrite Hu in Eo. split; [|exact Hnodec].
+  apply sp_legacy_octal_false in Eo. destruct Eo as [_ Hoct].
+  intros [H|[[-> [h1 [h2 [r' [H1 [H2 ->]]]]]]|[-> [hs [v [r' [Hh ->]]]]]]].
+  - congruence.
   - exact (Hnohex h1 h2 r' H1 H2 eq_refl).
   - exact (Hnouni hs v r' Hh eq_refl).
 Qed.
-Lemma sp_escape_sound l b r : sp_escape u l = SOk b r ->
-  (b = true /\ exists w, l = g_backslash :: w ++ r /\ AtomEscape u w r /\
+Lemma sp_escape_sound l b r : sp_escape u np l = SOk b r ->
+  (b = true /\ exists w, l = g_backslash :: w ++ r /\ AtomEscape u np w r /\
                           (forall x w', w = x :: w' -> w' <> [] -> assertion_escape x = false)) \/ (b = false /\ r = l).
 Proof.
   destruct l as [|c l']; cbn [sp_escape]; [intros [= <- <-]; right; split; reflexivity|].
   destruct (N.eqb_spec c g_backslash) as [->|_]; [|intros [= <- <-]; right; split; reflexivity].
-  destruct (sp_atom_escape u l') as [[|] r1| |] eqn:E; try discriminate; intros [= <- <-].
+  destruct (sp_atom_escape u np l') as [[|] r1| |] eqn:E; try discriminate; intros [= <- <-].
   - left. split; [reflexivity|]. apply sp_atom_escape_sound in E. destruct E as [[_ [w [-> H]]]|[E _]]; [|discriminate].
     exists w. split; [reflexivity|exact H].
   - right. split; reflexivity.
@@ -423,11 +600,12 @@ End EscapeSound.
 
 Section Sound.
 Variable u : bool.
+Variable np : N.
 Variable sdisj : list N -> SR unit.
-Hypothesis sdisj_sound : forall l r, sdisj l = SOk tt r -> exists d, l = d ++ r /\ Disjunction u d r.
+Hypothesis sdisj_sound : forall l r, sdisj l = SOk tt r -> exists d k, l = d ++ r /\ Disjunction u np d r k.
 
 Lemma sp_group_body_sound l b r : sp_group_body sdisj l = SOk b r ->
-  b = true /\ exists d, l = d ++ g_rparen :: r /\ Disjunction u d (g_rparen :: r).
+  b = true /\ exists d k, l = d ++ g_rparen :: r /\ Disjunction u np d (g_rparen :: r) k.
 Proof.
   unfold sp_group_body. destruct (sdisj l) as [[] [|c r0]| |] eqn:E; try discriminate.
   destruct (N.eqb_spec c g_rparen) as [->|_]; [|discriminate]. intros [= <- <-].
@@ -436,20 +614,20 @@ Qed.
 Lemma is_eq_or_bang_cases y : is_eq_or_bang y = true -> y = g_equals \/ y = g_bang.
 Proof. unfold is_eq_or_bang. intros H. apply orb_true_iff in H. destruct H as [H|H]; apply N.eqb_eq in H; auto. Qed.
 Lemma sp_assertion_sound l b r : sp_assertion sdisj l = SOk b r ->
-  (b = true /\ exists w, l = w ++ r /\ Assertion u w r /\
-     (quantifiable u l = true -> u = false /\ QuantifiableAssertion u w r)) \/ (b = false /\ r = l).
+  (b = true /\ exists w k, l = w ++ r /\ Assertion u np w r k /\
+     (quantifiable u l = true -> u = false /\ QuantifiableAssertion u np w r k)) \/ (b = false /\ r = l).
 Proof.
   destruct l as [|c l']; cbn [sp_assertion]; [intros [= <- <-]; right; split; reflexivity|].
   destruct (N.eqb_spec c g_caret) as [->|_].
-  { intros [= <- <-]. left. split; [reflexivity|]. exists [g_caret]. split; [reflexivity|]. split; [apply As_caret|].
+  { intros [= <- <-]. left. split; [reflexivity|]. exists [g_caret], 0. split; [reflexivity|]. split; [apply As_caret|].
     destruct l' as [|c1 [|c2 l2]]; cbn; discriminate. }
   destruct (N.eqb_spec c g_dollar) as [->|_].
-  { intros [= <- <-]. left. split; [reflexivity|]. exists [g_dollar]. split; [reflexivity|]. split; [apply As_dollar|].
+  { intros [= <- <-]. left. split; [reflexivity|]. exists [g_dollar], 0. split; [reflexivity|]. split; [apply As_dollar|].
     destruct l' as [|c1 [|c2 l2]]; cbn; discriminate. }
   destruct (N.eqb_spec c g_backslash) as [->|_].
   { destruct l' as [|x r']; [intros [= <- <-]; right; split; reflexivity|].
     destruct (assertion_escape x) eqn:Ex; [|intros [= <- <-]; right; split; reflexivity].
-    intros [= <- <-]. left. split; [reflexivity|]. exists [g_backslash; x]. split; [reflexivity|]. split.
+    intros [= <- <-]. left. split; [reflexivity|]. exists [g_backslash; x], 0. split; [reflexivity|]. split.
     - unfold assertion_escape in Ex. apply orb_true_iff in Ex. destruct Ex as [Ex|Ex]; apply N.eqb_eq in Ex; subst x;
         [apply As_word_boundary|apply As_not_word_boundary].
     - destruct r' as [|c2 l2]; cbn; discriminate. }
@@ -460,41 +638,41 @@ Proof.
   destruct (N.eqb_spec x g_less) as [->|Hx].
   - destruct r2 as [|y r3]; [intros [= <- <-]; right; split; reflexivity|].
     destruct (is_eq_or_bang y) eqn:Ey; [|intros [= <- <-]; right; split; reflexivity].
-    intros H. apply sp_group_body_sound in H. destruct H as [-> [d [-> Hd]]]. left. split; [reflexivity|].
+    intros H. apply sp_group_body_sound in H. destruct H as [-> [d [k [-> Hd]]]]. left. split; [reflexivity|].
     apply is_eq_or_bang_cases in Ey. destruct Ey as [->| ->].
-    + exists (g_lparen :: g_question :: g_less :: g_equals :: d ++ [g_rparen]). split; [cbn [app]; rewrite <- app_assoc; reflexivity|].
+    + exists (g_lparen :: g_question :: g_less :: g_equals :: d ++ [g_rparen]), k. split; [cbn [app]; rewrite <- app_assoc; reflexivity|].
       split; [apply As_lookbehind; exact Hd|]. cbn. discriminate.
-    + exists (g_lparen :: g_question :: g_less :: g_bang :: d ++ [g_rparen]). split; [cbn [app]; rewrite <- app_assoc; reflexivity|].
+    + exists (g_lparen :: g_question :: g_less :: g_bang :: d ++ [g_rparen]), k. split; [cbn [app]; rewrite <- app_assoc; reflexivity|].
       split; [apply As_neg_lookbehind; exact Hd|]. cbn. discriminate.
   - destruct (is_eq_or_bang x) eqn:Ex; [|intros [= <- <-]; right; split; reflexivity].
-    intros H. apply sp_group_body_sound in H. destruct H as [-> [d [-> Hd]]]. left. split; [reflexivity|].
+    intros H. apply sp_group_body_sound in H. destruct H as [-> [d [k [-> Hd]]]]. left. split; [reflexivity|].
     apply is_eq_or_bang_cases in Ex. destruct Ex as [->| ->].
-    + exists (g_lparen :: g_question :: g_equals :: d ++ [g_rparen]). split; [cbn [app]; rewrite <- app_assoc; reflexivity|].
-      assert (HQ : QuantifiableAssertion u (g_lparen :: g_question :: g_equals :: d ++ [g_rparen]) r) by (apply QA_lookahead; exact Hd).
+    + exists (g_lparen :: g_question :: g_equals :: d ++ [g_rparen]), k. split; [cbn [app]; rewrite <- app_assoc; reflexivity|].
+      assert (HQ : QuantifiableAssertion u np (g_lparen :: g_question :: g_equals :: d ++ [g_rparen]) r k) by (apply QA_lookahead; exact Hd).
       split; [apply As_lookahead; exact HQ|]. cbn. intros Hu. split; [destruct u; [discriminate|reflexivity]|exact HQ].
-    + exists (g_lparen :: g_question :: g_bang :: d ++ [g_rparen]). split; [cbn [app]; rewrite <- app_assoc; reflexivity|].
-      assert (HQ : QuantifiableAssertion u (g_lparen :: g_question :: g_bang :: d ++ [g_rparen]) r) by (apply QA_neg_lookahead; exact Hd).
+    + exists (g_lparen :: g_question :: g_bang :: d ++ [g_rparen]), k. split; [cbn [app]; rewrite <- app_assoc; reflexivity|].
+      assert (HQ : QuantifiableAssertion u np (g_lparen :: g_question :: g_bang :: d ++ [g_rparen]) r k) by (apply QA_neg_lookahead; exact Hd).
       split; [apply As_lookahead; exact HQ|]. cbn. intros Hu. split; [destruct u; [discriminate|reflexivity]|exact HQ].
 Qed.
 Lemma sp_brq_noerr_false u0 l r : sp_brq u0 true l = SOk false r -> sp_braced l = None.
 Proof. unfold sp_brq. destruct (sp_braced l) as [[[n om] r']|]; [cbn [negb andb]; discriminate|reflexivity]. Qed.
 Lemma sp_brq_noerr_none u0 l : sp_braced l = None -> sp_brq u0 true l = SOk false l.
 Proof. unfold sp_brq. intros ->. reflexivity. Qed.
-Lemma sp_atom_sound l b r : sp_assertion sdisj l = SOk false l -> sp_atom u sdisj l = SOk b r ->
-  (b = true /\ exists w, l = w ++ r /\ Atom u w r) \/ (b = false /\ r = l).
+Lemma sp_atom_sound l b r : sp_assertion sdisj l = SOk false l -> sp_atom u np sdisj l = SOk b r ->
+  (b = true /\ exists w k, l = w ++ r /\ Atom u np w r k) \/ (b = false /\ r = l).
 Proof.
   intros Hna.
   destruct l as [|c l']; cbn [sp_atom]; [intros [= <- <-]; right; split; reflexivity|].
   destruct (N.eqb_spec c g_dot) as [->|_].
-  { intros [= <- <-]. left. split; [reflexivity|]. exists [g_dot]. split; [reflexivity|apply At_dot]. }
+  { intros [= <- <-]. left. split; [reflexivity|]. exists [g_dot], 0. split; [reflexivity|apply At_dot]. }
   destruct (N.eqb_spec c g_backslash) as [->|_].
-  { destruct (sp_escape u (g_backslash :: l')) as [[|] r1| |] eqn:Ee; try discriminate.
-    - intros [= <- <-]. left. split; [reflexivity|]. apply (sp_escape_sound u) in Ee.
+  { destruct (sp_escape u np (g_backslash :: l')) as [[|] r1| |] eqn:Ee; try discriminate.
+    - intros [= <- <-]. left. split; [reflexivity|]. apply (sp_escape_sound u np) in Ee.
       destruct Ee as [[_ [w [E [HA Hlong]]]]|[Ee _]]; [|discriminate]. injection E as ->.
-      exists (g_backslash :: w). split; [reflexivity|]. apply At_escape; [exact HA|].
+      exists (g_backslash :: w), 0. split; [reflexivity|]. apply At_escape; [exact HA|].
       intros c ->. cbn [sp_assertion app] in Hna. cbn [N.eqb Pos.eqb] in Hna. destruct (assertion_escape c); [discriminate|reflexivity].
     - destruct (bs_c (g_backslash :: l')) eqn:Ebc; [|intros [= <- <-]; right; split; reflexivity].
-      intros [= <- <-]. left. split; [reflexivity|]. exists [g_backslash]. split; [reflexivity|].
+      intros [= <- <-]. left. split; [reflexivity|]. exists [g_backslash], 0. split; [reflexivity|].
       destruct l' as [|x l'']; [discriminate Ebc|]. cbn [bs_c] in Ebc. rewrite N.eqb_refl in Ebc. cbn [andb] in Ebc.
       apply N.eqb_eq in Ebc. subst x. destruct u eqn:Eu.
       + cbn [sp_escape] in Ee. rewrite N.eqb_refl in Ee. exfalso. revert Ee. unfold sp_atom_escape, sp_hex_esc, sp_unicode_esc.
@@ -507,23 +685,23 @@ Proof.
         destruct l'' as [|d l3]; [intros _; exact I|]. cbn [starts_letter]. destruct (control_letter d); [discriminate|reflexivity]. }
   destruct (N.eqb_spec c g_lparen) as [->|_].
   { assert (Hcap : forall l0, sp_group_body sdisj l0 = SOk b r ->
-              b = true /\ exists w, g_lparen :: l0 = w ++ r /\ Atom u w r).
-    { intros l0 H. apply sp_group_body_sound in H. destruct H as [-> [d [-> Hd]]]. split; [reflexivity|].
-      exists (g_lparen :: d ++ [g_rparen]). split; [cbn [app]; rewrite <- app_assoc; reflexivity|apply At_group; exact Hd]. }
+              b = true /\ exists w k, g_lparen :: l0 = w ++ r /\ Atom u np w r k).
+    { intros l0 H. apply sp_group_body_sound in H. destruct H as [-> [d [k [-> Hd]]]]. split; [reflexivity|].
+      exists (g_lparen :: d ++ [g_rparen]), (1 + k). split; [cbn [app]; rewrite <- app_assoc; reflexivity|apply At_group; exact Hd]. }
     destruct l' as [|q r']; [intros H; left; apply Hcap; exact H|].
     destruct (N.eqb_spec q g_question) as [->|_]; [|intros H; left; apply Hcap; exact H].
     destruct r' as [|k r'']; [discriminate|].
     destruct (N.eqb_spec k g_colon) as [->|_]; [|discriminate].
-    intros H. apply sp_group_body_sound in H. destruct H as [-> [d [-> Hd]]]. left. split; [reflexivity|].
-    exists (g_lparen :: g_question :: g_colon :: d ++ [g_rparen]). split; [cbn [app]; rewrite <- app_assoc; reflexivity|].
+    intros H. apply sp_group_body_sound in H. destruct H as [-> [d [k [-> Hd]]]]. left. split; [reflexivity|].
+    exists (g_lparen :: g_question :: g_colon :: d ++ [g_rparen]), k. split; [cbn [app]; rewrite <- app_assoc; reflexivity|].
     apply At_noncapturing; exact Hd. }
   destruct u eqn:Eu.
   { destruct (syntax_character c) eqn:Es; cbn [negb]; [intros [= <- <-]; right; split; reflexivity|].
-    intros [= <- <-]. left. split; [reflexivity|]. exists [c]. split; [reflexivity|].
+    intros [= <- <-]. left. split; [reflexivity|]. exists [c], 0. split; [reflexivity|].
     apply At_char; [cbn [pattern_char]; rewrite Es; reflexivity|discriminate]. }
   destruct (sp_brq false true (c :: l')) as [[|] r0| |] eqn:Eb; try discriminate.
   destruct (extended_pattern_character c) eqn:Ec; [|intros [= <- <-]; right; split; reflexivity].
-  intros [= <- <-]. left. split; [reflexivity|]. exists [c]. split; [reflexivity|].
+  intros [= <- <-]. left. split; [reflexivity|]. exists [c], 0. split; [reflexivity|].
   apply At_char; [exact Ec|]. intros _. apply not_ibq_none. exact (sp_brq_noerr_false _ _ _ Eb).
 Qed.
 Lemma sp_quantified_sound r0 b r : sp_quantified u r0 = SOk b r ->
@@ -533,77 +711,71 @@ Proof.
   - right. apply sp_quant_sound in E. exact E.
   - left. apply sp_quant_false in E. exact E.
 Qed.
-Lemma sp_term_sound l b r : sp_term u sdisj l = SOk b r ->
-  (b = true /\ exists t, l = t ++ r /\ Term u t r) \/ (b = false /\ r = l).
+Lemma sp_term_sound l b r : sp_term u np sdisj l = SOk b r ->
+  (b = true /\ exists t k, l = t ++ r /\ Term u np t r k) \/ (b = false /\ r = l).
 Proof.
   unfold sp_term. destruct (sp_assertion sdisj l) as [[|] r0| |] eqn:Ea; try discriminate.
-  - apply sp_assertion_sound in Ea. destruct Ea as [[_ [w [-> [Hw Hq]]]]|[Ea _]]; [|discriminate].
+  - apply sp_assertion_sound in Ea. destruct Ea as [[_ [w [k [-> [Hw Hq]]]]]|[Ea _]]; [|discriminate].
     destruct (quantifiable u (w ++ r0)) eqn:Eq.
     + intros H. apply sp_quantified_sound in H. destruct H as [-> H]. left. split; [reflexivity|]. destruct (Hq eq_refl) as [Hu HQ].
       destruct H as [->|[q [-> Hq']]].
-      * exists w. split; [reflexivity|apply T_assertion; exact Hw].
-      * exists (w ++ q). split; [rewrite app_assoc; reflexivity|]. apply T_qassertion_quant; assumption.
-    + intros [= <- <-]. left. split; [reflexivity|]. exists w. split; [reflexivity|apply T_assertion; exact Hw].
+      * exists w, k. split; [reflexivity|apply T_assertion; exact Hw].
+      * exists (w ++ q), k. split; [rewrite app_assoc; reflexivity|]. apply T_qassertion_quant; assumption.
+    + intros [= <- <-]. left. split; [reflexivity|]. exists w, k. split; [reflexivity|apply T_assertion; exact Hw].
   - assert (Hna : sp_assertion sdisj l = SOk false l).
     { rewrite Ea. f_equal. apply sp_assertion_sound in Ea. destruct Ea as [[Ea _]|[_ Ea]]; [discriminate|exact Ea]. }
-    destruct (sp_atom u sdisj l) as [[|] r1| |] eqn:E; try discriminate.
+    destruct (sp_atom u np sdisj l) as [[|] r1| |] eqn:E; try discriminate.
     + intros H. apply sp_quantified_sound in H. destruct H as [-> H]. left. split; [reflexivity|].
-      apply (sp_atom_sound _ _ _ Hna) in E. destruct E as [[_ [w [-> Hw]]]|[E _]]; [|discriminate].
+      apply (sp_atom_sound _ _ _ Hna) in E. destruct E as [[_ [w [k [-> Hw]]]]|[E _]]; [|discriminate].
       destruct H as [->|[q [-> Hq]]].
-      * exists w. split; [reflexivity|apply T_atom; exact Hw].
-      * exists (w ++ q). split; [rewrite app_assoc; reflexivity|]. apply T_atom_quant; assumption.
+      * exists w, k. split; [reflexivity|apply T_atom; exact Hw].
+      * exists (w ++ q), k. split; [rewrite app_assoc; reflexivity|]. apply T_atom_quant; assumption.
     + intros [= <- <-]. right. split; [reflexivity|].
       apply (sp_atom_sound _ _ _ Hna) in E. destruct E as [[E _]|[_ E]]; [discriminate|exact E].
 Qed.
-Lemma sp_alternative_sound g : forall l r, sp_alternative u sdisj g l = SOk tt r ->
-  exists a, l = a ++ r /\ Alternative u a r.
+Lemma sp_alternative_sound g : forall l r, sp_alternative u np sdisj g l = SOk tt r ->
+  exists a k, l = a ++ r /\ Alternative u np a r k.
 Proof.
   induction g as [|g IH]; intros l r; cbn [sp_alternative]; [discriminate|].
-  destruct l as [|c l']; [intros [= <-]; exists []; split; [reflexivity|apply A_empty]|].
-  destruct (sp_term u sdisj (c :: l')) as [[|] r0| |] eqn:E; try discriminate.
-  - intros H. apply IH in H. destruct H as [a [-> Ha]].
-    apply sp_term_sound in E. destruct E as [[_ [t [-> Ht]]]|[E _]]; [|discriminate].
-    exists (t ++ a). split; [rewrite app_assoc; reflexivity|apply Alternative_cons; assumption].
+  destruct l as [|c l']; [intros [= <-]; exists [], 0; split; [reflexivity|apply A_empty]|].
+  destruct (sp_term u np sdisj (c :: l')) as [[|] r0| |] eqn:E; try discriminate.
+  - intros H. apply IH in H. destruct H as [a [ka [-> Ha]]].
+    apply sp_term_sound in E. destruct E as [[_ [t [kt [-> Ht]]]]|[E _]]; [|discriminate].
+    exists (t ++ a), (kt + ka). split; [rewrite app_assoc; reflexivity|apply Alternative_cons; assumption].
   - intros [= <-]. apply sp_term_sound in E. destruct E as [[E _]|[_ ->]]; [discriminate|].
-    exists []. split; [reflexivity|apply A_empty].
+    exists [], 0. split; [reflexivity|apply A_empty].
 Qed.
-Lemma sp_bars_sound g : forall l r, sp_bars u sdisj g l = SOk tt r ->
-  forall a, Alternative u a l -> exists d, a ++ l = d ++ r /\ Disjunction u d r.
+Lemma sp_bars_sound g : forall l r, sp_bars u np sdisj g l = SOk tt r ->
+  forall a k, Alternative u np a l k -> exists d k', a ++ l = d ++ r /\ Disjunction u np d r k'.
 Proof.
   induction g as [|g IH]; intros l r; cbn [sp_bars]; [discriminate|].
   destruct l as [|c l'].
-  { intros [= <-] a Ha. exists a. split; [reflexivity|apply D_alt; exact Ha]. }
+  { intros [= <-] a k Ha. exists a, k. split; [reflexivity|apply D_alt; exact Ha]. }
   destruct (N.eqb_spec c g_bar) as [->|_].
-  2:{ intros [= <-] a Ha. exists a. split; [reflexivity|apply D_alt; exact Ha]. }
-  destruct (sp_alternative u sdisj (S (length l')) l') as [[] r0| |] eqn:E; try discriminate.
-  intros H a Ha. apply sp_alternative_sound in E. destruct E as [a' [-> Ha']].
-  destruct (IH _ _ H a' Ha') as [d [Hd1 Hd2]]. exists (a ++ g_bar :: d). split.
+  2:{ intros [= <-] a k Ha. exists a, k. split; [reflexivity|apply D_alt; exact Ha]. }
+  destruct (sp_alternative u np sdisj (S (length l')) l') as [[] r0| |] eqn:E; try discriminate.
+  intros H a k Ha. apply sp_alternative_sound in E. destruct E as [a' [k' [-> Ha']]].
+  destruct (IH _ _ H a' k' Ha') as [d [kd [Hd1 Hd2]]]. exists (a ++ g_bar :: d), (k + kd). split.
   - rewrite Hd1. rewrite <- app_assoc. reflexivity.
   - apply D_bar; [rewrite <- Hd1; exact Ha|exact Hd2].
 Qed.
-Lemma sp_disjunction_body_sound l r : sp_disjunction_body u sdisj l = SOk tt r ->
-  exists d, l = d ++ r /\ Disjunction u d r.
+Lemma sp_disjunction_body_sound l r : sp_disjunction_body u np sdisj l = SOk tt r ->
+  exists d k, l = d ++ r /\ Disjunction u np d r k.
 Proof.
   unfold sp_disjunction_body.
-  destruct (sp_alternative u sdisj (S (length l)) l) as [[] l1| |] eqn:E1; try discriminate.
-  destruct (sp_bars u sdisj (S (length l1)) l1) as [[] l2| |] eqn:E2; try discriminate.
+  destruct (sp_alternative u np sdisj (S (length l)) l) as [[] l1| |] eqn:E1; try discriminate.
+  destruct (sp_bars u np sdisj (S (length l1)) l1) as [[] l2| |] eqn:E2; try discriminate.
   destruct (sp_quant u true l2) as [[|] r2| |]; try discriminate.
   destruct (starts_with g_lbrace l2); [discriminate|]. intros [= <-].
-  apply sp_alternative_sound in E1. destruct E1 as [a [-> Ha]].
-  exact (sp_bars_sound _ _ _ E2 a Ha).
+  apply sp_alternative_sound in E1. destruct E1 as [a [k [-> Ha]]].
+  exact (sp_bars_sound _ _ _ E2 a k Ha).
 Qed.
 End Sound.
 
-Lemma sp_disjunction_sound u f : forall l r, sp_disjunction u f l = SOk tt r -> exists d, l = d ++ r /\ Disjunction u d r.
+Lemma sp_disjunction_sound u np f : forall l r, sp_disjunction u np f l = SOk tt r -> exists d k, l = d ++ r /\ Disjunction u np d r k.
 Proof.
   induction f as [|f IH]; intros l r; cbn [sp_disjunction]; [discriminate|].
   apply sp_disjunction_body_sound. exact IH.
-Qed.
-
-Theorem sp_pattern_sound u l a r : sp_pattern u l = SOk a r -> Pattern u l.
-Proof.
-  unfold sp_pattern. destruct (sp_disjunction u (S (length l)) l) as [[] [|c r0]| |] eqn:E; try discriminate.
-  intros _. apply (sp_disjunction_sound u) in E. destruct E as [d [-> Hd]]. rewrite app_nil_r. exact Hd.
 Qed.
 
 (* ================= completeness ================= *)
@@ -624,29 +796,32 @@ Proof.
 Qed.
 
 (* first units: nothing starts where a quantifier could be read *)
-Lemma grammar_heads u :
-  (forall d r, Disjunction u d r -> d = [] \/ noq u (d ++ r)) /\ (forall a r, Alternative u a r -> a = [] \/ noq u (a ++ r)) /\
-  (forall t r, Term u t r -> t <> [] /\ noq u (t ++ r)) /\ (forall w r, Assertion u w r -> w <> [] /\ noq u (w ++ r)) /\
-  (forall w r, QuantifiableAssertion u w r -> w <> [] /\ noq u (w ++ r)) /\ (forall w r, Atom u w r -> w <> [] /\ noq u (w ++ r)).
+Lemma grammar_heads u np :
+  (forall d r k, Disjunction u np d r k -> d = [] \/ noq u (d ++ r)) /\
+  (forall a r k, Alternative u np a r k -> a = [] \/ noq u (a ++ r)) /\
+  (forall t r k, Term u np t r k -> t <> [] /\ noq u (t ++ r)) /\
+  (forall w r k, Assertion u np w r k -> w <> [] /\ noq u (w ++ r)) /\
+  (forall w r k, QuantifiableAssertion u np w r k -> w <> [] /\ noq u (w ++ r)) /\
+  (forall w r k, Atom u np w r k -> w <> [] /\ noq u (w ++ r)).
 Proof.
   apply grammar_mutind.
-  - intros a r _ IH. exact IH.
-  - intros a d r _ IHa _ _. right. destruct IHa as [->|IHa]; [destruct u; reflexivity|]. rewrite <- app_assoc. exact IHa.
+  - intros a r k _ IH. exact IH.
+  - intros a d r k1 k2 _ IHa _ _. right. destruct IHa as [->|IHa]; [destruct u; reflexivity|]. rewrite <- app_assoc. exact IHa.
   - intros r. left. reflexivity.
-  - intros a t r _ IHa _ [Hne IHt]. right. destruct IHa as [->|IHa]; [exact IHt|]. rewrite <- app_assoc. exact IHa.
-  - intros a r _ IH. exact IH.
-  - intros a q r _ _ [Hne IHa] _. split; [destruct a; [contradiction|discriminate]|]. rewrite <- app_assoc. exact IHa.
-  - intros a r _ IH. exact IH.
-  - intros a q r _ [Hne IHa] _. split; [destruct a; [contradiction|discriminate]|]. rewrite <- app_assoc. exact IHa.
+  - intros a t r k1 k2 _ IHa _ [Hne IHt]. right. destruct IHa as [->|IHa]; [exact IHt|]. rewrite <- app_assoc. exact IHa.
+  - intros a r k _ IH. exact IH.
+  - intros a q r k _ _ [Hne IHa] _. split; [destruct a; [contradiction|discriminate]|]. rewrite <- app_assoc. exact IHa.
+  - intros a r k _ IH. exact IH.
+  - intros a q r k _ [Hne IHa] _. split; [destruct a; [contradiction|discriminate]|]. rewrite <- app_assoc. exact IHa.
   - intros r. split; [discriminate|destruct u; reflexivity].
   - intros r. split; [discriminate|destruct u; reflexivity].
   - intros r. split; [discriminate|destruct u; reflexivity].
   - intros r. split; [discriminate|destruct u; reflexivity].
-  - intros a r _ IH. exact IH.
-  - intros d r _ _. split; [discriminate|destruct u; reflexivity].
-  - intros d r _ _. split; [discriminate|destruct u; reflexivity].
-  - intros d r _ _. split; [discriminate|destruct u; reflexivity].
-  - intros d r _ _. split; [discriminate|destruct u; reflexivity].
+  - intros a r k _ IH. exact IH.
+  - intros d r k _ _. split; [discriminate|destruct u; reflexivity].
+  - intros d r k _ _. split; [discriminate|destruct u; reflexivity].
+  - intros d r k _ _. split; [discriminate|destruct u; reflexivity].
+  - intros d r k _ _. split; [discriminate|destruct u; reflexivity].
   - intros c r Hc Hib. split; [discriminate|]. cbn [app]. unfold noq. cbn [sp_quant].
     rewrite (pattern_char_not_quant u c Hc). destruct (N.eqb_spec c g_lbrace) as [->|Hn].
     2:{ apply N.eqb_neq in Hn. rewrite (sp_brq_not_brace u false c r Hn). reflexivity. }
@@ -657,50 +832,163 @@ Proof.
   - intros r. split; [discriminate|destruct u; reflexivity].
   - intros w r _ _. split; [discriminate|destruct u; reflexivity].
   - intros r _ _. split; [discriminate|destruct u; reflexivity].
-  - intros d r _ _. split; [discriminate|destruct u; reflexivity].
-  - intros d r _ _. split; [discriminate|destruct u; reflexivity].
+  - intros d r k _ _. split; [discriminate|destruct u; reflexivity].
+  - intros d r k _ _. split; [discriminate|destruct u; reflexivity].
+Qed.
+Lemma noq_not_question' u r q l : noq u r -> r = q :: l -> (q =? g_question) = false.
+Proof. intros H ->. apply noq_head in H. unfold is_quant_char in H. apply orb_false_iff in H. apply H. Qed.
+
+(* ---- NcapturingParens: the groups of a derivation are the groups count_groups finds in its text ---- *)
+Definition safe (c : N) : Prop := c <> g_backslash /\ c <> g_lparen.
+Lemma count_safe ws r : Forall safe ws -> count_groups (ws ++ r) false = count_groups r false.
+Proof.
+  induction 1 as [|c ws [H1 H2] _ IH]; [reflexivity|]. cbn [app count_groups].
+  apply N.eqb_neq in H1, H2. rewrite H1, H2. exact IH.
+Qed.
+Lemma count_escaped c r : count_groups (c :: r) true = count_groups r false.
+Proof. reflexivity. Qed.
+Lemma digit_safe ds : Forall digit ds -> Forall safe ds.
+Proof. apply Forall_impl. intros c Hc. split; intros ->; discriminate Hc. Qed.
+Lemma hexd_safe ds : Forall hexd ds -> Forall safe ds.
+Proof. apply Forall_impl. intros c Hc. split; intros ->; discriminate Hc. Qed.
+Lemma DecimalDigits_safe ds v : DecimalDigits ds v -> Forall safe ds.
+Proof. intros H. apply DecimalDigits_spec in H. apply digit_safe. apply H. Qed.
+Lemma HexDigits_safe ds v : HexDigits ds v -> Forall safe ds.
+Proof. intros H. apply HexDigits_spec in H. apply hexd_safe. apply H. Qed.
+Lemma safe_const c : (c =? g_backslash) = false -> (c =? g_lparen) = false -> safe c.
+Proof. intros H1 H2. split; apply N.eqb_neq; assumption. Qed.
+Lemma Braced_safe q n om : Braced q n om -> Forall safe q.
+Proof.
+  intros [ds n0 Hd|ds n0 Hd|ds n0 es m Hd He]; (constructor; [apply safe_const; reflexivity|]); apply Forall_app; split;
+    try (eapply DecimalDigits_safe; eassumption).
+  - repeat constructor; apply safe_const; reflexivity.
+  - repeat constructor; apply safe_const; reflexivity.
+  - constructor; [apply safe_const; reflexivity|]. apply Forall_app. split; [eapply DecimalDigits_safe; eassumption|].
+    repeat constructor; apply safe_const; reflexivity.
+Qed.
+Lemma Quantifier_safe q : Quantifier q -> Forall safe q.
+Proof.
+  assert (Hp : forall p, QuantifierPrefix p -> Forall safe p).
+  { intros p [| | |p0 n om HB _]; try (repeat constructor; apply safe_const; reflexivity). eapply Braced_safe; eassumption. }
+  intros [p H|p H]; [apply Hp; exact H|]. apply Forall_app. split; [apply Hp; exact H|repeat constructor; apply safe_const; reflexivity].
+Qed.
+Lemma letter_safe c : control_letter c = true -> safe c.
+Proof. intros H. split; intros ->; discriminate H. Qed.
+Lemma AtomEscape_count u np w r : AtomEscape u np w r -> count_groups (w ++ r) true = count_groups r false.
+Proof.
+  intros [ds v r0 HD _|c r0 _|w0 r0 HC].
+  - destruct HD as [d ds' v0 r1 _ HDD _]. apply DecimalDigits_safe in HDD. inversion HDD as [|? ? _ Hs]; subst.
+    cbn [app count_groups]. apply count_safe. exact Hs.
+  - reflexivity.
+  - destruct HC as [c r0 _|c r0 Hc|r0 _|h1 h2 r0 H1 H2|w0 r0 HU|w0 r0 _ HL _|c r0 _ _]; try reflexivity.
+    + cbn [app count_groups]. apply (count_safe [c]). constructor; [apply letter_safe; exact Hc|constructor].
+    + cbn [app count_groups]. apply (count_safe [h1; h2]). apply hexd_safe. repeat constructor; assumption.
+    + destruct HU as [hs v ts x r1 _ [Hh _] _ [Ht _] _|hs v r1 [Hh _] _|ds v r1 _ Hd _]; cbn [app count_groups].
+      * rewrite <- app_assoc. rewrite (count_safe hs) by (eapply HexDigits_safe; eassumption). cbn [app count_groups].
+        cbn [N.eqb Pos.eqb g_backslash]. apply count_safe. eapply HexDigits_safe; eassumption.
+      * apply count_safe. eapply HexDigits_safe; eassumption.
+      * change (count_groups ((g_lbrace :: ds ++ [g_rbrace]) ++ r1) false = count_groups r1 false).
+        apply count_safe. constructor; [apply safe_const; reflexivity|]. apply Forall_app. split; [eapply HexDigits_safe; eassumption|].
+        repeat constructor; apply safe_const; reflexivity.
+    + destruct (LegacyOctal_head w0 r0 HL) as [a [w' [-> _]]]. cbn [app count_groups]. apply count_safe.
+      assert (Hall : Forall (fun c => octal_digit c = true) (a :: w')).
+      { destruct HL; repeat constructor; try assumption; try reflexivity; try (apply zero_to_three_octal; assumption);
+          try (apply four_to_seven_octal; assumption). }
+      inversion Hall as [|? ? _ Hw']; subst. revert Hw'. apply Forall_impl. intros c Hc. split; intros ->; discriminate Hc.
+Qed.
+Lemma count_mut u np :
+  (forall d r k, Disjunction u np d r k -> count_groups (d ++ r) false = k + count_groups r false) /\
+  (forall a r k, Alternative u np a r k -> count_groups (a ++ r) false = k + count_groups r false) /\
+  (forall t r k, Term u np t r k -> count_groups (t ++ r) false = k + count_groups r false) /\
+  (forall w r k, Assertion u np w r k -> count_groups (w ++ r) false = k + count_groups r false) /\
+  (forall w r k, QuantifiableAssertion u np w r k -> count_groups (w ++ r) false = k + count_groups r false) /\
+  (forall w r k, Atom u np w r k -> count_groups (w ++ r) false = k + count_groups r false).
+Proof.
+  assert (Hgroup : forall pre d r k, Forall safe pre ->
+            count_groups (d ++ g_rparen :: r) false = k + count_groups (g_rparen :: r) false ->
+            count_groups ((g_lparen :: g_question :: pre ++ d ++ [g_rparen]) ++ r) false = k + count_groups r false).
+  { intros pre d r k Hp IH. cbn [app count_groups]. cbn [N.eqb Pos.eqb g_lparen g_backslash g_question starts_with andb negb].
+    rewrite <- !app_assoc. rewrite (count_safe pre _ Hp). cbn [app]. rewrite IH. reflexivity. }
+  apply grammar_mutind.
+  - intros a r k _ IH. exact IH.
+  - intros a d r k1 k2 _ IHa _ IHd. rewrite <- app_assoc. cbn [app]. rewrite IHa. cbn [count_groups].
+    cbn [N.eqb Pos.eqb g_bar g_backslash g_lparen andb]. rewrite IHd. apply N.add_assoc.
+  - intros r. reflexivity.
+  - intros a t r k1 k2 _ IHa _ IHt. rewrite <- app_assoc. rewrite IHa, IHt. apply N.add_assoc.
+  - intros a r k _ IH. exact IH.
+  - intros a q r k _ _ IHa Hq. rewrite <- app_assoc. rewrite IHa. rewrite (count_safe q r (Quantifier_safe q Hq)). reflexivity.
+  - intros a r k _ IH. exact IH.
+  - intros a q r k _ IHa Hq. rewrite <- app_assoc. rewrite IHa. rewrite (count_safe q r (Quantifier_safe q Hq)). reflexivity.
+  - intros r. reflexivity.
+  - intros r. reflexivity.
+  - intros r. reflexivity.
+  - intros r. reflexivity.
+  - intros a r k _ IH. exact IH.
+  - intros d r k _ IH. apply (Hgroup [g_less; g_equals] d r k); [repeat constructor; apply safe_const; reflexivity|exact IH].
+  - intros d r k _ IH. apply (Hgroup [g_less; g_bang] d r k); [repeat constructor; apply safe_const; reflexivity|exact IH].
+  - intros d r k _ IH. apply (Hgroup [g_equals] d r k); [repeat constructor; apply safe_const; reflexivity|exact IH].
+  - intros d r k _ IH. apply (Hgroup [g_bang] d r k); [repeat constructor; apply safe_const; reflexivity|exact IH].
+  - intros c r Hc _. apply (count_safe [c]). constructor; [|constructor]. split; intros ->; destruct u; discriminate Hc.
+  - intros r. reflexivity.
+  - intros w r He _. cbn [app count_groups]. cbn [N.eqb Pos.eqb g_backslash]. apply (AtomEscape_count u np w r He).
+  - intros r _ _. reflexivity.
+  - intros d r k Hd IH. cbn [app count_groups]. cbn [N.eqb Pos.eqb g_lparen g_backslash andb].
+    assert (Hq : starts_with g_question ((d ++ [g_rparen]) ++ r) = false).
+    { destruct (proj1 (grammar_heads u np) d _ k Hd) as [->|Hq]; [reflexivity|]. destruct d as [|q d']; [reflexivity|].
+      cbn [app starts_with] in *. exact (noq_not_question' u _ q _ Hq eq_refl). }
+    rewrite Hq. cbn [negb]. rewrite <- app_assoc. cbn [app]. rewrite IH. rewrite N.add_assoc. reflexivity.
+  - intros d r k _ IH. apply (Hgroup [g_colon] d r k); [repeat constructor; apply safe_const; reflexivity|exact IH].
+Qed.
+
+Theorem sp_pattern_sound u l a r : sp_pattern u l = SOk a r -> Pattern u l.
+Proof.
+  unfold sp_pattern. destruct (sp_disjunction u (count_groups l false) (S (length l)) l) as [[] [|c r0]| |] eqn:E; try discriminate.
+  intros _. apply sp_disjunction_sound in E. destruct E as [d [k [-> Hd]]]. rewrite app_nil_r in *.
+  pose proof (proj1 (count_mut u _) d [] k Hd) as Hc. rewrite app_nil_r in Hc. cbn [count_groups] in Hc. rewrite N.add_0_r in Hc.
+  exists k. rewrite Hc in Hd. exact Hd.
 Qed.
 
 (* more fuel does not change a result *)
-Lemma sp_alternative_mono u sdisj g : forall l res, sp_alternative u sdisj g l = res -> res <> SFuel ->
-  forall g', (g <= g')%nat -> sp_alternative u sdisj g' l = res.
+Lemma sp_alternative_mono u np sdisj g : forall l res, sp_alternative u np sdisj g l = res -> res <> SFuel ->
+  forall g', (g <= g')%nat -> sp_alternative u np sdisj g' l = res.
 Proof.
   induction g as [|g IH]; intros l res H Hne g' Hle; [cbn in H; congruence|].
   destruct g' as [|g']; [lia|]. cbn [sp_alternative] in *.
   destruct l as [|c l']; [exact H|].
-  destruct (sp_term u sdisj (c :: l')) as [[|] r0| |]; try exact H.
+  destruct (sp_term u np sdisj (c :: l')) as [[|] r0| |]; try exact H.
   apply (IH _ _ H Hne). lia.
 Qed.
 
 Section Complete.
 Variable u : bool.
+Variable np : N.
 
 Definition P_D (d r : list N) : Prop :=
   forall f, stop r -> (length (d ++ r) <= f)%nat ->
-  exists l1, sp_alternative u (sp_disjunction u f) (S (length (d ++ r))) (d ++ r) = SOk tt l1 /\
+  exists l1, sp_alternative u np (sp_disjunction u np f) (S (length (d ++ r))) (d ++ r) = SOk tt l1 /\
              (length l1 <= length (d ++ r))%nat /\
-             forall g, (length l1 < g)%nat -> sp_bars u (sp_disjunction u f) g l1 = SOk tt r.
+             forall g, (length l1 < g)%nat -> sp_bars u np (sp_disjunction u np f) g l1 = SOk tt r.
 Definition P_A (a r : list N) : Prop :=
   forall f g res, noq u r -> (length (a ++ r) <= f)%nat ->
-  sp_alternative u (sp_disjunction u f) g r = res -> res <> SFuel ->
-  sp_alternative u (sp_disjunction u f) (g + length a) (a ++ r) = res.
+  sp_alternative u np (sp_disjunction u np f) g r = res -> res <> SFuel ->
+  sp_alternative u np (sp_disjunction u np f) (g + length a) (a ++ r) = res.
 Definition P_T (t r : list N) : Prop :=
-  forall f, noq u r -> (length (t ++ r) <= f)%nat -> sp_term u (sp_disjunction u f) (t ++ r) = SOk true r.
+  forall f, noq u r -> (length (t ++ r) <= f)%nat -> sp_term u np (sp_disjunction u np f) (t ++ r) = SOk true r.
 Definition P_As (w r : list N) : Prop :=
-  forall f, (length (w ++ r) <= f)%nat -> sp_assertion (sp_disjunction u f) (w ++ r) = SOk true r.
+  forall f, (length (w ++ r) <= f)%nat -> sp_assertion (sp_disjunction u np f) (w ++ r) = SOk true r.
 (* a look-ahead: recognised as an assertion, and quantifiable exactly without u *)
 Definition P_QA (w r : list N) : Prop :=
   forall f, (length (w ++ r) <= f)%nat ->
-  sp_assertion (sp_disjunction u f) (w ++ r) = SOk true r /\ quantifiable u (w ++ r) = negb u.
+  sp_assertion (sp_disjunction u np f) (w ++ r) = SOk true r /\ quantifiable u (w ++ r) = negb u.
 (* an atom: not an assertion, recognised as an atom *)
 Definition P_At (w r : list N) : Prop :=
   forall f, (length (w ++ r) <= f)%nat ->
-  sp_atom u (sp_disjunction u f) (w ++ r) = SOk true r /\ sp_assertion (sp_disjunction u f) (w ++ r) = SOk false (w ++ r).
+  sp_atom u np (sp_disjunction u np f) (w ++ r) = SOk true r /\ sp_assertion (sp_disjunction u np f) (w ++ r) = SOk false (w ++ r).
 
 Lemma stop_after_bars r : stop r -> sp_quant u true r = SOk false r /\ starts_with g_lbrace r = false.
 Proof. intros [->|[r' ->]]; split; destruct u; reflexivity. Qed.
 Lemma P_D_disjunction d r : P_D d r -> forall f, stop r -> (length (d ++ r) < f)%nat ->
-  sp_disjunction u f (d ++ r) = SOk tt r.
+  sp_disjunction u np f (d ++ r) = SOk tt r.
 Proof.
   intros HP f Hs Hlen. destruct f as [|f]; [lia|]. cbn [sp_disjunction]. unfold sp_disjunction_body.
   destruct (HP f Hs ltac:(lia)) as [l1 [E1 [Hl1 Hb]]]. rewrite E1.
@@ -708,7 +996,7 @@ Proof.
 Qed.
 (* `(x` D `)` rest, entered after the prefix: the body of any group or look-around *)
 Lemma P_D_group_body d r : P_D d (g_rparen :: r) -> forall f, (S (length (d ++ g_rparen :: r)) <= f)%nat ->
-  sp_group_body (sp_disjunction u f) (d ++ g_rparen :: r) = SOk true r.
+  sp_group_body (sp_disjunction u np f) (d ++ g_rparen :: r) = SOk true r.
 Proof.
   intros HP f Hlen. unfold sp_group_body. rewrite (P_D_disjunction d (g_rparen :: r) HP f).
   - rewrite N.eqb_refl. reflexivity.
@@ -717,7 +1005,7 @@ Proof.
 Qed.
 
 Lemma alt_stops_at f r : r = [] \/ (exists r', r = g_rparen :: r') \/ (exists r', r = g_bar :: r') ->
-  sp_alternative u (sp_disjunction u f) 1 r = SOk tt r.
+  sp_alternative u np (sp_disjunction u np f) 1 r = SOk tt r.
 Proof. intros [->|[[r' ->]|[r' ->]]]; [reflexivity| |]; cbn; destruct u; reflexivity. Qed.
 
 Lemma stop_bar_noq r : noq u (g_bar :: r).
@@ -742,96 +1030,132 @@ Proof.
     assert (Hrun : hex_run 4 (g_lbrace :: ds ++ g_rbrace :: r0) 0 = None) by reflexivity.
     unfold sp_surrogate_pair, sp_fixed_hex. rewrite Hrun. rewrite (sp_codepoint_complete ds v r0 Hd Hv). reflexivity.
 Qed.
-Lemma sp_atom_escape_complete w r : AtomEscape u w r -> sp_atom_escape u (w ++ r) = SOk true r.
+Lemma sp_backref_nondigit u0 c r : non_zero_digit c = false -> sp_backref u0 np (c :: r) = SOk false (c :: r).
+Proof. intros H. cbn [sp_backref]. rewrite H. reflexivity. Qed.
+Lemma class_escape_cases c : character_class_escape c = true -> non_zero_digit c = false.
 Proof.
-  intros [c r0 Hc|w0 r0 HC]; [cbn [app sp_atom_escape]; rewrite Hc; reflexivity|].
-  destruct HC as [c r0 Hc|c r0 Hc|r0 Hn|h1 h2 r0 H1 H2|w0 r0 HU|c r0 Hi Hn].
-  - cbn [app sp_atom_escape]. destruct (character_class_escape c); [reflexivity|]. rewrite Hc. reflexivity.
-  - cbn [app sp_atom_escape]. cbn [character_class_escape control_escape existsb N.eqb Pos.eqb orb andb starts_letter tl].
-    rewrite Hc. reflexivity.
-  - cbn [app sp_atom_escape]. cbn [character_class_escape control_escape existsb N.eqb Pos.eqb orb andb].
+  unfold character_class_escape. cbn [existsb]. intros H.
+  repeat (apply orb_true_iff in H; destruct H as [H|H]); try discriminate H; apply N.eqb_eq in H; subst c; reflexivity.
+Qed.
+Lemma control_escape_cases c : control_escape c = true -> non_zero_digit c = false.
+Proof.
+  unfold control_escape. cbn [existsb]. intros H.
+  repeat (apply orb_true_iff in H; destruct H as [H|H]); try discriminate H; apply N.eqb_eq in H; subst c; reflexivity.
+Qed.
+Lemma identity_true_nondigit c : identity_escape true c = true -> non_zero_digit c = false.
+Proof.
+  cbn [identity_escape]. unfold syntax_character. cbn [existsb]. intros H.
+  repeat (apply orb_true_iff in H; destruct H as [H|H]); try discriminate H; apply N.eqb_eq in H; subst c; reflexivity.
+Qed.
+Lemma sp_atom_escape_complete w r : AtomEscape u np w r -> sp_atom_escape u np (w ++ r) = SOk true r.
+Proof.
+  intros HA. unfold sp_atom_escape. destruct HA as [ds v r0 HD Hv|c r0 Hc|w0 r0 HC].
+  { rewrite (sp_backref_complete u np ds v r0 HD Hv). reflexivity. }
+  { cbn [app]. rewrite (sp_backref_nondigit u c r0 (class_escape_cases c Hc)). rewrite Hc. reflexivity. }
+  destruct HC as [c r0 Hc|c r0 Hc|r0 Hn|h1 h2 r0 H1 H2|w0 r0 HU|w0 r0 Hu HL Hnd|c r0 Hi Hn].
+  - cbn [app]. rewrite (sp_backref_nondigit u c r0 (control_escape_cases c Hc)).
+    destruct (character_class_escape c); [reflexivity|]. rewrite Hc. reflexivity.
+  - cbn [app]. rewrite sp_backref_nondigit by reflexivity.
+    cbn [character_class_escape control_escape existsb N.eqb Pos.eqb orb andb starts_letter tl]. rewrite Hc. reflexivity.
+  - cbn [app]. rewrite sp_backref_nondigit by reflexivity.
+    cbn [character_class_escape control_escape existsb N.eqb Pos.eqb orb andb].
     assert (E : starts_digit r0 = false) by (destruct r0 as [|d r1]; [reflexivity|exact Hn]). rewrite E. reflexivity.
-  - cbn [app sp_atom_escape]. cbn [character_class_escape control_escape existsb N.eqb Pos.eqb orb andb sp_hex_esc].
+  - cbn [app]. rewrite sp_backref_nondigit by reflexivity.
+    cbn [character_class_escape control_escape existsb N.eqb Pos.eqb orb andb sp_hex_esc].
     unfold sp_fixed_hex. cbn [hex_run]. rewrite H1, H2. reflexivity.
   - pose proof (sp_unicode_esc_complete w0 r0 HU) as E.
     assert (Hw : exists w', w0 = 117 :: w') by (destruct HU; eexists; reflexivity). destruct Hw as [w' ->].
-    cbn [app] in *. cbn [sp_atom_escape]. cbn [character_class_escape control_escape existsb N.eqb Pos.eqb orb andb].
+    cbn [app] in *. rewrite sp_backref_nondigit by reflexivity.
+    cbn [character_class_escape control_escape existsb N.eqb Pos.eqb orb andb].
     rewrite sp_hex_esc_not_x by reflexivity. rewrite E. reflexivity.
-  - cbn [app sp_atom_escape]. destruct (character_class_escape c) eqn:Ecl; [reflexivity|].
-    destruct (control_escape c) eqn:Eco; [reflexivity|].
-    destruct u eqn:Eu.
-    + destruct (identity_true_cases c Hi) as [_ [_ [E99 [E48 [E120 [E117 _]]]]]]. rewrite E99, E48. cbn [andb].
+  - rewrite (sp_backref_skip u np (w0 ++ r0) (or_introl Hu) Hnd).
+    destruct (LegacyOctal_head w0 r0 HL) as [a [w' [-> [Ha Hz]]]]. cbn [app] in *.
+    destruct (octal_not_special a Ha) as [Ecl [Eco [E99 [E120 [E117 _]]]]]. rewrite Ecl, Eco, E99. cbn [andb]. rewrite Hz.
+    rewrite sp_hex_esc_not_x by exact E120. rewrite sp_unicode_esc_not_u by exact E117. rewrite Hu.
+    change (a :: w' ++ r0) with ((a :: w') ++ r0). rewrite (sp_legacy_octal_complete _ _ HL). reflexivity.
+  - cbn [app]. destruct u eqn:Eu.
+    + rewrite (sp_backref_nondigit true c r0 (identity_true_nondigit c Hi)).
+      destruct (identity_true_cases c Hi) as [Ecl [Eco [E99 [E48 [E120 [E117 _]]]]]]. rewrite Ecl, Eco, E99, E48. cbn [andb].
       rewrite sp_hex_esc_not_x by exact E120. rewrite sp_unicode_esc_not_u by exact E117. rewrite Hi. reflexivity.
-    + specialize (Hn eq_refl). cbn [identity_escape] in Hi. apply negb_true_iff in Hi. rewrite Hi. cbn [andb].
-      assert (E48 : (c =? 48) = false) by (apply N.eqb_neq; intros ->; apply Hn; left; reflexivity). rewrite E48. cbn [andb].
+    + destruct (Hn eq_refl) as [Hne Hnd]. rewrite (sp_backref_skip false np (c :: r0) (or_introl eq_refl) Hnd).
+      destruct (character_class_escape c) eqn:Ecl; [reflexivity|]. destruct (control_escape c) eqn:Eco; [reflexivity|].
+      cbn [identity_escape] in Hi. apply negb_true_iff in Hi. rewrite Hi. cbn [andb].
+      assert (Eoct : octal_digit c = false) by (destruct (octal_digit c) eqn:Eo; [exfalso; apply Hne; left; exact Eo|reflexivity]).
+      assert (E48 : (c =? 48) = false) by (apply N.eqb_neq; intros ->; discriminate Eoct). rewrite E48. cbn [andb].
       assert (Eh : sp_hex_esc false (c :: r0) = SOk false (c :: r0)).
       { destruct (N.eqb_spec c 120) as [->|Hc]; [|apply sp_hex_esc_not_x; apply N.eqb_neq; exact Hc].
         cbn [sp_hex_esc N.eqb Pos.eqb]. unfold sp_fixed_hex. destruct (hex_run 2 r0 0) as [[v r1]|] eqn:E; [|reflexivity].
-        exfalso. apply Hn. right. left. split; [reflexivity|]. apply hex_run_spec in E. destruct E as [hs [-> [Hl [Hf _]]]].
+        exfalso. apply Hne. right. left. split; [reflexivity|]. apply hex_run_spec in E. destruct E as [hs [-> [Hl [Hf _]]]].
         destruct hs as [|h1 [|h2 [|h3 hs]]]; try discriminate Hl. exists h1, h2, r1.
         inversion Hf as [|? ? H1 Hf']; subst. inversion Hf' as [|? ? H2 _]; subst. repeat split; assumption. }
       rewrite Eh.
       assert (Eu' : sp_unicode_esc false (c :: r0) = SOk false (c :: r0)).
       { destruct (N.eqb_spec c 117) as [->|Hc]; [|apply sp_unicode_esc_not_u; apply N.eqb_neq; exact Hc].
         cbn [sp_unicode_esc N.eqb Pos.eqb]. unfold sp_fixed_hex. destruct (hex_run 4 r0 0) as [[v r1]|] eqn:E; [|reflexivity].
-        exfalso. apply Hn. right. right. split; [reflexivity|]. apply run_Hex4Digits in E. destruct E as [hs [-> Hh]].
+        exfalso. apply Hne. right. right. split; [reflexivity|]. apply run_Hex4Digits in E. destruct E as [hs [-> Hh]].
         exists hs, v, r1. split; [exact Hh|reflexivity]. }
-      rewrite Eu'. cbn [identity_escape]. rewrite Hi. reflexivity.
+      rewrite Eu'. cbn [sp_legacy_octal]. rewrite Eoct. cbn [identity_escape]. rewrite Hi. reflexivity.
 Qed.
-Lemma AtomEscape_head w r : AtomEscape u w r -> exists x w', w = x :: w' /\ (w' <> [] -> assertion_escape x = false).
+Lemma AtomEscape_head w r : AtomEscape u np w r -> exists x w', w = x :: w' /\ (w' <> [] -> assertion_escape x = false).
 Proof.
-  intros [c r0 Hc|w0 r0 HC]; [exists c, []; split; [reflexivity|intros H; contradiction]|].
-  destruct HC as [c r0 Hc|c r0 Hc|r0 Hn|h1 h2 r0 H1 H2|w0 r0 HU|c r0 Hi Hn];
-    try (eexists; eexists; split; [reflexivity|intros H; first [contradiction|reflexivity]]).
-  destruct HU; eexists; eexists; (split; [reflexivity|intros _; reflexivity]).
+  intros [ds v r0 HD _|c r0 Hc|w0 r0 HC].
+  - destruct (DecimalEscape_run ds v r0 HD) as [_ [_ [d [ds' [-> Hd]]]]]. exists d, ds'. split; [reflexivity|]. intros _.
+    unfold non_zero_digit in Hd. apply andb_true_iff in Hd. destruct Hd as [_ Hd]. apply N.leb_le in Hd.
+    unfold assertion_escape. apply orb_false_iff. split; apply N.eqb_neq; lia.
+  - exists c, []. split; [reflexivity|intros H; contradiction].
+  - destruct HC as [c r0 Hc|c r0 Hc|r0 Hn|h1 h2 r0 H1 H2|w0 r0 HU|w0 r0 Hu HL Hnd|c r0 Hi Hn];
+      try (eexists; eexists; split; [reflexivity|intros H; first [contradiction|reflexivity]]).
+    + destruct HU; eexists; eexists; (split; [reflexivity|intros _; reflexivity]).
+    + destruct (LegacyOctal_head w0 r0 HL) as [a [w' [-> [Ha _]]]]. exists a, w'. split; [reflexivity|]. intros _.
+      apply (octal_not_special a Ha).
 Qed.
 
 Lemma completeness_mut :
-  (forall d r, Disjunction u d r -> P_D d r) /\ (forall a r, Alternative u a r -> P_A a r) /\
-  (forall t r, Term u t r -> P_T t r) /\ (forall w r, Assertion u w r -> P_As w r) /\
-  (forall w r, QuantifiableAssertion u w r -> P_QA w r) /\ (forall w r, Atom u w r -> P_At w r).
+  (forall d r k, Disjunction u np d r k -> P_D d r) /\ (forall a r k, Alternative u np a r k -> P_A a r) /\
+  (forall t r k, Term u np t r k -> P_T t r) /\ (forall w r k, Assertion u np w r k -> P_As w r) /\
+  (forall w r k, QuantifiableAssertion u np w r k -> P_QA w r) /\ (forall w r k, Atom u np w r k -> P_At w r).
 Proof.
   apply grammar_mutind.
-  - (* D_alt *) intros a r Ha IHa f Hs Hlen. exists r. split; [|split].
+  - (* D_alt *) intros a r k Ha IHa f Hs Hlen. exists r. split; [|split].
     + pose proof (IHa f 1%nat (SOk tt r) (stop_noq u r Hs) Hlen) as H.
-      assert (E : sp_alternative u (sp_disjunction u f) 1 r = SOk tt r).
+      assert (E : sp_alternative u np (sp_disjunction u np f) 1 r = SOk tt r).
       { apply alt_stops_at. destruct Hs as [->|Hs]; [left; reflexivity|right; left; exact Hs]. }
       specialize (H E ltac:(discriminate)).
-      apply (sp_alternative_mono _ _ _ _ _ H); [discriminate|]. rewrite app_length. lia.
+      apply (sp_alternative_mono _ _ _ _ _ _ H); [discriminate|]. rewrite app_length. lia.
     + rewrite app_length. lia.
     + intros g Hg. destruct g as [|g]; [lia|]. cbn [sp_bars].
       destruct Hs as [->|[r' ->]]; [reflexivity|]. reflexivity.
-  - (* D_bar *) intros a d r Ha IHa Hd IHd f Hs Hlen.
+  - (* D_bar *) intros a d r k1 k2 Ha IHa Hd IHd f Hs Hlen.
     rewrite <- app_assoc in *. cbn [app] in *.
     exists (g_bar :: d ++ r). split; [|split].
-    + assert (E : sp_alternative u (sp_disjunction u f) 1 (g_bar :: d ++ r) = SOk tt (g_bar :: d ++ r)).
+    + assert (E : sp_alternative u np (sp_disjunction u np f) 1 (g_bar :: d ++ r) = SOk tt (g_bar :: d ++ r)).
       { apply alt_stops_at. right. right. exists (d ++ r). reflexivity. }
       pose proof (IHa f 1%nat _ (stop_bar_noq (d ++ r)) Hlen E ltac:(discriminate)) as H.
-      apply (sp_alternative_mono _ _ _ _ _ H); [discriminate|]. rewrite app_length. lia.
+      apply (sp_alternative_mono _ _ _ _ _ _ H); [discriminate|]. rewrite app_length. lia.
     + rewrite app_length. lia.
     + intros g Hg. destruct g as [|g]; [cbn in Hg; lia|]. cbn [sp_bars]. rewrite N.eqb_refl.
       assert (Hlen' : (length (d ++ r) <= f)%nat) by (rewrite app_length in Hlen; cbn [length] in Hlen; lia).
       destruct (IHd f Hs Hlen') as [l1 [E1 [Hl1 Hb]]]. rewrite E1. apply Hb. cbn [length] in Hg. lia.
   - (* A_empty *) intros r f g res _ _ H _. cbn [length app]. rewrite Nat.add_0_r. exact H.
-  - (* A_term *) intros a t r Ha IHa Ht IHt f g res Hq Hlen H Hne.
-    destruct (proj1 (proj2 (proj2 (grammar_heads u))) t r Ht) as [Hnt Hqt].
+  - (* A_term *) intros a t r k1 k2 Ha IHa Ht IHt f g res Hq Hlen H Hne.
+    destruct (proj1 (proj2 (proj2 (grammar_heads u np))) t r k2 Ht) as [Hnt Hqt].
     rewrite <- app_assoc in *.
     assert (Hlen' : (length (t ++ r) <= f)%nat) by (rewrite app_length in Hlen; lia).
-    assert (E : sp_alternative u (sp_disjunction u f) (g + length t) (t ++ r) = res).
+    assert (E : sp_alternative u np (sp_disjunction u np f) (g + length t) (t ++ r) = res).
     { destruct t as [|c t']; [contradiction|]. cbn [length]. rewrite Nat.add_succ_r. cbn [sp_alternative app].
       change (c :: t' ++ r) with ((c :: t') ++ r). rewrite (IHt f Hq Hlen').
-      apply (sp_alternative_mono _ _ _ _ _ H Hne). lia. }
+      apply (sp_alternative_mono _ _ _ _ _ _ H Hne). lia. }
     pose proof (IHa f (g + length t)%nat res Hqt Hlen E Hne) as H'.
     replace (g + length (a ++ t))%nat with (g + length t + length a)%nat by (rewrite app_length; lia). exact H'.
-  - (* T_assertion *) intros a r Ha IHa f Hq Hlen. unfold sp_term. rewrite (IHa f Hlen).
+  - (* T_assertion *) intros a r k Ha IHa f Hq Hlen. unfold sp_term. rewrite (IHa f Hlen).
     destruct (quantifiable u (a ++ r)); [unfold sp_quantified; rewrite Hq|]; reflexivity.
-  - (* T_qassertion_quant *) intros a q r Hu Ha IHa Hq0 f Hq Hlen.
+  - (* T_qassertion_quant *) intros a q r k Hu Ha IHa Hq0 f Hq Hlen.
     rewrite <- app_assoc in *.
     destruct (IHa f Hlen) as [E1 E2]. unfold sp_term. rewrite E1, E2. replace (negb u) with true by (rewrite Hu; reflexivity).
     unfold sp_quantified. rewrite (sp_quant_complete u q r Hq0 Hq). reflexivity.
-  - (* T_atom *) intros a r Ha IHa f Hq Hlen. unfold sp_term. destruct (IHa f Hlen) as [E1 E2].
+  - (* T_atom *) intros a r k Ha IHa f Hq Hlen. unfold sp_term. destruct (IHa f Hlen) as [E1 E2].
     rewrite E2, E1. unfold sp_quantified. rewrite Hq. reflexivity.
-  - (* T_atom_quant *) intros a q r Ha IHa Hq0 f Hq Hlen.
+  - (* T_atom_quant *) intros a q r k Ha IHa Hq0 f Hq Hlen.
     rewrite <- app_assoc in *.
     unfold sp_term. destruct (IHa f Hlen) as [E1 E2]. rewrite E2, E1.
     unfold sp_quantified. rewrite (sp_quant_complete u q r Hq0 Hq). reflexivity.
@@ -839,18 +1163,18 @@ Proof.
   - (* As_dollar *) intros r f _. reflexivity.
   - (* As_word_boundary *) intros r f _. reflexivity.
   - (* As_not_word_boundary *) intros r f _. reflexivity.
-  - (* As_lookahead *) intros a r Ha IHa f Hlen. apply (IHa f Hlen).
-  - (* As_lookbehind *) intros d r Hd IHd f Hlen.
+  - (* As_lookahead *) intros a r k Ha IHa f Hlen. apply (IHa f Hlen).
+  - (* As_lookbehind *) intros d r k Hd IHd f Hlen.
     cbn [app sp_assertion]. rewrite app_comm_cons'. cbn [N.eqb Pos.eqb is_eq_or_bang orb].
     apply (P_D_group_body d r IHd). cbn [length app] in Hlen. rewrite app_comm_cons' in Hlen. cbn [length] in *. lia.
-  - (* As_neg_lookbehind *) intros d r Hd IHd f Hlen.
+  - (* As_neg_lookbehind *) intros d r k Hd IHd f Hlen.
     cbn [app sp_assertion]. rewrite app_comm_cons'. cbn [N.eqb Pos.eqb is_eq_or_bang orb].
     apply (P_D_group_body d r IHd). cbn [length app] in Hlen. rewrite app_comm_cons' in Hlen. cbn [length] in *. lia.
-  - (* QA_lookahead *) intros d r Hd IHd f Hlen. split.
+  - (* QA_lookahead *) intros d r k Hd IHd f Hlen. split.
     + cbn [app sp_assertion]. rewrite app_comm_cons'. cbn [N.eqb Pos.eqb is_eq_or_bang orb].
       apply (P_D_group_body d r IHd). cbn [length app] in Hlen. rewrite app_comm_cons' in Hlen. cbn [length] in *. lia.
     + cbn. reflexivity.
-  - (* QA_neg_lookahead *) intros d r Hd IHd f Hlen. split.
+  - (* QA_neg_lookahead *) intros d r k Hd IHd f Hlen. split.
     + cbn [app sp_assertion]. rewrite app_comm_cons'. cbn [N.eqb Pos.eqb is_eq_or_bang orb].
       apply (P_D_group_body d r IHd). cbn [length app] in Hlen. rewrite app_comm_cons' in Hlen. cbn [length] in *. lia.
     + cbn. reflexivity.
@@ -877,26 +1201,32 @@ Proof.
     unfold sp_atom_escape. cbn [character_class_escape control_escape existsb N.eqb Pos.eqb orb andb].
     assert (E : starts_letter r = false) by (destruct r as [|d r1]; [reflexivity|exact Hl]). rewrite E.
     reflexivity.
-  - (* At_group *) intros d r Hd IHd f Hlen.
-    pose proof (proj1 (grammar_heads u) d _ Hd) as Hqd.
+  - (* At_group *) intros d r k Hd IHd f Hlen.
+    pose proof (proj1 (grammar_heads u np) d _ k Hd) as Hqd.
     cbn [app sp_atom sp_assertion]. rewrite app_comm_cons'. cbn [N.eqb Pos.eqb negb syntax_character existsb orb].
-    assert (Hbody : sp_group_body (sp_disjunction u f) (d ++ g_rparen :: r) = SOk true r).
+    assert (Hbody : sp_group_body (sp_disjunction u np f) (d ++ g_rparen :: r) = SOk true r).
     { apply (P_D_group_body d r IHd). cbn [length app] in Hlen. rewrite app_comm_cons' in Hlen. cbn [length] in *. lia. }
     destruct d as [|q d']; [split; [exact Hbody|reflexivity]|]. cbn [app] in *.
     destruct Hqd as [Hqd|Hqd]; [discriminate|]. rewrite (noq_not_question _ q _ Hqd eq_refl). split; [exact Hbody|reflexivity].
-  - (* At_noncapturing *) intros d r Hd IHd f Hlen.
+  - (* At_noncapturing *) intros d r k Hd IHd f Hlen.
     cbn [app sp_atom sp_assertion]. rewrite app_comm_cons'. cbn [N.eqb Pos.eqb negb syntax_character existsb orb is_eq_or_bang].
     split; [|reflexivity].
     apply (P_D_group_body d r IHd). cbn [length app] in Hlen. rewrite app_comm_cons' in Hlen. cbn [length] in *. lia.
 Qed.
 
-Theorem sp_pattern_complete l : Pattern u l -> sp_pattern u l = SOk tt [].
+Lemma sp_disjunction_complete l k : Disjunction u np l [] k -> sp_disjunction u np (S (length l)) l = SOk tt [].
 Proof.
-  intros Hp. unfold sp_pattern.
-  pose proof (P_D_disjunction l [] (proj1 completeness_mut l [] Hp) (S (length l)) (or_introl eq_refl)) as H.
-  rewrite app_nil_r in H. rewrite H; [reflexivity|lia].
+  intros Hp. pose proof (P_D_disjunction l [] (proj1 completeness_mut l [] k Hp) (S (length l)) (or_introl eq_refl)) as H.
+  rewrite app_nil_r in H. apply H. lia.
 Qed.
 End Complete.
+
+Theorem sp_pattern_complete u l : Pattern u l -> sp_pattern u l = SOk tt [].
+Proof.
+  intros [k Hp]. unfold sp_pattern.
+  pose proof (proj1 (count_mut u k) l [] k Hp) as Hc. rewrite app_nil_r in Hc. cbn [count_groups] in Hc. rewrite N.add_0_r in Hc.
+  rewrite Hc. rewrite (sp_disjunction_complete u k l k Hp). reflexivity.
+Qed.
 
 Theorem recognises_iff_Pattern u l : recognises u l = true <-> Pattern u l.
 Proof.
